@@ -96,21 +96,20 @@ func (q *queryServer) QueryPlansForProvider(c context.Context, req *types.QueryP
 	)
 
 	pagination, err := query.FilteredPaginate(store, req.Pagination, func(key, _ []byte, accumulate bool) (bool, error) {
-		if !accumulate {
-			return false, nil
-		}
-
 		item, found := q.GetPlan(ctx, sdk.BigEndianToUint64(key))
 		if !found {
 			return false, fmt.Errorf("plan for key %X does not exist", key)
 		}
 
-		if req.Status.Equal(hubtypes.StatusUnspecified) || item.Status.Equal(req.Status) {
-			items = append(items, item)
-			return true, nil
+		if !req.Status.Equal(hubtypes.StatusUnspecified) && !item.Status.Equal(req.Status) {
+			return false, nil
 		}
 
-		return false, nil
+		if accumulate {
+			items = append(items, item)
+		}
+
+		return true, nil
 	})
 
 	if err != nil {
